@@ -37,6 +37,7 @@ type tv struct {
 	Ty  string `json:"ty"`
 	V   string `json:"v,omitempty"`   // unfolded walker text
 	Err string `json:"err,omitempty"` // decode error of the oracle round trip
+	Sig string `json:"sig,omitempty"` // deep dynamic type of the value: every interface{} inside is resolved to what it holds
 	Eq  string `json:"eq,omitempty"`  // oracle entries: the property's equality between the original and the plain round trip
 	// the round trip of this value ALONE into the type (Ty/V/Eq are for the value as an element of its list)
 	Solo    string `json:"solo,omitempty"`
@@ -216,6 +217,86 @@ func jsonRoundTrip(v interface{}, t reflect.Type) (out interface{}, err string) 
 		err = "panic: " + p
 	}
 	return
+}
+
+// typeSig: the deep dynamic type of a value.  What the decoder builds inside an interface{} depends on the codec's
+// options (LongType, RealType, MapType, StructType, ListType); the walker text does not show a map's or a float's Go
+// type, this does.
+func typeSig(x interface{}) string {
+	if x == nil {
+		return "nil"
+	}
+	return sigOf(reflect.ValueOf(x), 0)
+}
+
+func sigOf(v reflect.Value, depth int) string {
+	if !v.IsValid() {
+		return "nil"
+	}
+	if depth > 12 {
+		return "..."
+	}
+	t := v.Type()
+	switch v.Kind() {
+	case reflect.Interface:
+		if v.IsNil() {
+			return "nil"
+		}
+		return sigOf(v.Elem(), depth)
+	case reflect.Ptr:
+		if v.IsNil() {
+			return t.String()
+		}
+		if t.Elem().Kind() == reflect.Struct && t.Elem().NumField() > 0 && t.Elem().PkgPath() != "main" {
+			return t.String() // library types (big.Int, time.Time, list.List...) are not looked into
+		}
+		return "*" + sigOf(v.Elem(), depth+1)
+	case reflect.Slice, reflect.Array:
+		if t.Elem().Kind() != reflect.Interface || v.Len() == 0 {
+			return t.String()
+		}
+		s := t.String() + "{"
+		for i := 0; i < v.Len(); i++ {
+			if i > 0 {
+				s += ","
+			}
+			s += sigOf(v.Index(i), depth+1)
+		}
+		return s + "}"
+	case reflect.Map:
+		if t.Elem().Kind() != reflect.Interface && t.Key().Kind() != reflect.Interface {
+			return t.String()
+		}
+		var es []string
+		it := v.MapRange()
+		for it.Next() {
+			es = append(es, sigOf(it.Key(), depth+1)+":"+sigOf(it.Value(), depth+1))
+		}
+		sort.Strings(es)
+		s := t.String() + "{"
+		for i, e := range es {
+			if i > 0 {
+				s += ","
+			}
+			s += e
+		}
+		return s + "}"
+	case reflect.Struct:
+		if t.PkgPath() != "main" {
+			return t.String()
+		}
+		s := t.String() + "{"
+		for i := 0; i < v.NumField(); i++ {
+			if t.Field(i).PkgPath != "" {
+				continue
+			}
+			if k := t.Field(i).Type.Kind(); k == reflect.Interface || k == reflect.Slice || k == reflect.Map || k == reflect.Ptr {
+				s += sigOf(v.Field(i), depth+1) + ";"
+			}
+		}
+		return s + "}"
+	}
+	return t.String()
 }
 
 func typeName(x interface{}) string {
